@@ -309,7 +309,7 @@ NOINL void mdspan_canonical(Ctx& c)
         md_light(c, s, "mdspan(mdspan<Other...>):->const,all-dynamic", cv, static_cast<Cell const*>(p), mod, 3);
         // conversion to views over other patterns of the same rank with compatible static extents (at most 3 per source,
         // same rank_dynamic() at other positions first): every element must keep its address
-        for_each_target<Idx, GE, 3>([&]<typename F, std::size_t GF>() {
+        for_each_target<Idx, GE, VF_CONV_MD>([&]<typename F, std::size_t GF>() {
             if (!shape_matches<F>(c.shape)) { return; }
             using MDF = etl::mdspan<Cell, F, L>;
             static_assert(std::is_constructible_v<MDF, MD const&>);
@@ -865,6 +865,7 @@ NOINL void mdarray_strided(Ctx& c)
             arr_touch(c, s, "mdarray(mapping,value)", a2, mod, n * 16 + 6);
         }
         // the same with etl::static_vector as the (size-constructible) container
+#if VF_SVEC
         if (mod.span() <= (LL)SVCAP) {
             crumb_op(c, ss, "mdarray(mapping)");
             AS a(m);
@@ -892,6 +893,7 @@ NOINL void mdarray_strided(Ctx& c)
             auto const md = a2.to_mdspan();
             md_light(c, ss, "to_mdspan()", md, a2.container_data(), mod, n * 16 + 12);
         }
+#endif
     }
     c.extra.clear();
 }
